@@ -116,6 +116,13 @@ def run(ctx, idx):
     wr = res.get("mpilot/libraries/eems/csv/io.py::EEMSWrite")
     if rd is None or wr is None:
         raise AnalysisError("CSV EEMSRead / EEMSWrite vanished")
+    ctx.rule("C17.g", "The writer reads every result before it opens its output: evaluation is lazy, so a column read from the very file being written (a table updated in place) must have been read before that file is truncated.")
+    iorules.inputs_evaluated_before_open(ctx, idx, "C17.g", wr[0], "a Read of the same file that has not run yet finds an empty table (EmptyDataFile for a valid file), and the file is left holding the header only")
+    ctx.rule("C17.h", "Reading returns what the file holds now: the CSV reader and writer use no result cache keyed by path / column (a table rewritten in the same process would come back as its first reading).")
+    for d_, _r in (rd, wr):
+        memo = K.memoised_helpers(idx, d_.execute)
+        ctx.ob("C17.h", "%s.execute::no-result-cache" % d_.key, d_.module.rel, (memo[0][0].node.lineno if memo else d_.execute.node.lineno), not memo,
+               "no cached helper on the path" if not memo else "`%s` is cached with `@%s`: a column read once is returned again after the file changed" % (memo[0][0].name, memo[0][1]))
     d, r = rd
     n = iorules.param_domains(ctx, idx, "C17.a", d)
     ctx.floor("C17.a", "defaults / comparisons of cleaned parameters", n, 1)
